@@ -243,13 +243,24 @@ CHECKS = {
             "eaGenerateUpdate_correct, plus_monotone) hold for the generational machine of Core/Loops.lean for every ngen, every selection/variation/acceptance tape, "
             "every pure evaluate and every operator pair meeting C02's OpContract, at every generation boundary; HARM-GP's acceptance arithmetic is modelled "
             "(harm_accept_prob_nonneg, harm_accept_prob_unit_below_cutoff, harm_hist_needs_natural; harm_accept_prob_exceeds_one shows the threshold is not clamped - "
-            "a threshold above 1 means 'always accept'). The real loops (GA, NSGA-II, GP incl. staticLimit-wrapped operators, gp.harm incl. the default natural "
-            "population, CMA-ES and a persistent-individual ask/tell strategy), with and without hall of fame, statistics and verbose output, are replayed generation "
-            "by generation and the statement is evaluated as an oracle at every boundary.",
-            TB + "the CMA update is outside the model (its results are read off the trace); selectors return members of their input; initial population = distinct "
-            "objects (the same unevaluated object listed twice is evaluated twice: outside the premise), pre-evaluated truthfully; evaluate pure; 'updated in place' and "
-            "'hall-of-fame best >= every logged fitness' are oracle-only (the latter composes hof_fed with C08).",
-            "Lean 4 proof over a hand-written model + trace refinement + oracle"),
+            "a threshold above 1 means 'always accept'). COMPOSED with the library components (Core/LoopsCompose.lean): the same generations run with the C08 model of "
+            "HallOfFame(maxsize >= 1) fed by the loop - hof_best_ge_logged(+_gu), hof_best_not_lt_logged, hof_best_never_worse: at every boundary the first member is at "
+            "least as good (C01 order) as every individual ever shown and as every member of the population at this and every earlier boundary, all C08 hypotheses "
+            "(capacity, similarity = equal genotypes, similar => equal fitness, archive = update history from empty) discharged from the loop invariant; "
+            "hall_of_fame_never_blocks; with the C06 models of selBest/selWorst/selRandom/selTournament as toolbox.select - eaSimpleC/eaMuPlusLambdaC/eaMuCommaLambdaC_correct "
+            "(sizes from C06 length_*), plus_monotone_selBest (C06 best_sorted) and the counterexamples comma_not_monotone, tournament_not_monotone; list objects with "
+            "identities - population_updated_in_place (the returned variable is the caller's list object, it holds the population, no other list is written), "
+            "rebinding_is_not_in_place; the ask/tell protocol of eaGenerateUpdate - generate_update_protocol (every individual handed to update was produced by the "
+            "preceding generate, carries evaluate of its genotype, evaluated exactly once). The real loops (GA, NSGA-II, GP incl. staticLimit-wrapped operators, gp.harm "
+            "incl. the default natural population, CMA-ES and a persistent-individual ask/tell strategy), with and without hall of fame, statistics and verbose output, are "
+            "replayed generation by generation through the abstract machine and, when a hall of fame is supplied, through the composed machine (model-computed selection "
+            "vs real selected indices, model hall of fame vs real hall of fame, list identity, ask/tell record, at every boundary); the statement is evaluated as an "
+            "oracle at every boundary.",
+            TB + "the CMA update's numerics are outside the model (only its ask/tell protocol and the order update() leaves the list in); selectors return members of their "
+            "input; roulette and NSGA-II selections stay on the position tape (not computed by the composed model); initial population = distinct objects (the same "
+            "unevaluated object listed twice is evaluated twice: outside the premise), pre-evaluated truthfully; evaluate pure; hall of fame similarity = equal genotypes "
+            "(the default operator.eq).",
+            "Lean 4 proof over a hand-written model, composed with the C06/C08 models + trace refinement + oracle"),
     "C07": ("full",
             "Lean theorems C07.*: SPEA2 returns exactly k distinct input objects, all non-dominated when #nd<=k, only non-dominated when #nd>=k (incl. the "
             "truncation invariant spea2_to_remove_distinct), for every density/distance value; NSGA-III niching/selNSGA3: exactly k distinct input objects, earlier "
@@ -274,11 +285,21 @@ CHECKS = {
             "whole-history invariants active_inverse_history (invA A = I through every rank-one branch and constraint update), mo_inverse_history, "
             "mo_psucc_sigma_history and onepl_factor_history (A A^T = C with A lower-triangular, C symmetric positive definite after every round, under the Cholesky "
             "contract on symmetric positive-definite input - cholOK_two exhibits it in dimension 2; onepl_sym/onepl_posdef re-establish the precondition each round), "
-            "default-parameter ranges for all three strategies, init_psucc_unit, generate_round_ok (the MO round side conditions follow from generate). No unproved statement remains. "
-            "The Float instance of the same definitions is diffed against the real strategies on 1..300-round histories and the statement is evaluated "
+            "default-parameter ranges for all three strategies, init_psucc_unit, generate_round_ok (the MO round side conditions follow from generate). "
+            "COMPOSITION (exact regime, Rat): mo_select_library instantiates _select with the C04 model of sortLogNondominated as the ranking and the C15 model of the "
+            "hypervolume indicator (leastContributor) as the indicator (Core/CmaSelectLib.lean) and proves, with no contract hypothesis on either: exactly mu kept and "
+            "nobody lost (mo_select_library_count), whole fronts in rank order with ranks = Pareto depth (mo_select_library_ranks, from C04.sortLog_eq_peel), and the "
+            "split front loses, one at a time, the first individual whose removal loses the least hypervolume w.r.t. worst+1 over all candidates (LeastDrops, from "
+            "C15.indicator_least; mo_ref_point, mo_indicator_is_library). elitist_never_worse_lex / active_elitist_never_worse_lex / active_elitist_never_worse_constrained: the whole-history elitism theorems with "
+            "C01's models of Fitness and ConstrainedFitness __le__/__lt__ (lexicographic, any number of objectives) in place of an abstract total preorder "
+            "(fitOrd_total, cfitOrd_total). No unproved statement remains. "
+            "The composed model runs _select end to end (driver op mo-sel-lib) against the real StrategyMultiObjective._select on exactly representable bi-/tri-objective "
+            "fitnesses and inside MO histories on plateau objectives. The Float instance of the same definitions is diffed against the real strategies on 1..300-round histories and the statement is evaluated "
             "as an oracle after every round while cond(A)<1e12.",
-            TB + "numpy.linalg.cholesky/inv (LAPACK), numpy.around, sortLogNondominated (C04) and the hypervolume indicator (C15) are model parameters whose "
-            "contracts (A A^T=C lower-triangular, inv(M) M=I, ranks, least contributor) are validated numerically on every call; IEEE rounding: theorems are over "
+            TB + "numpy.linalg.cholesky/inv (LAPACK) and numpy.around are model parameters whose contracts (A A^T=C lower-triangular, inv(M) M=I) are validated "
+            "numerically on every call; sortLogNondominated and the hypervolume indicator are the proved C04 / C15 models inside _select in the exact regime "
+            "(mo_select_library) and remain answer tapes only in the Float replay of whole update() rounds (arbitrary doubles), where the oracle re-derives ranks and "
+            "contributions; the dimension-sweep hypervolume code itself is tied to the C15 model by C15's correspondence; IEEE rounding: theorems are over "
             "the reals, correspondence uses relative tolerance 1e-9 (inverse checks scaled by cond).",
             "Lean 4 proof over a hand-written model (Mathlib matrices via a list<->Matrix bridge) + differential correspondence with tolerance + oracle"),
     "C16": ("partial",
